@@ -4,6 +4,7 @@ mod util;
 mod ops_core;
 mod canon;
 mod ops_types;
+mod ops_sink;
 
 use std::io::{BufRead, BufWriter, Write};
 
@@ -16,6 +17,8 @@ fn handler(op: &str) -> Option<Handler> {
         "RT" => Some(ops_types::rt_handler),
         "DT" => Some(ops_types::dt_handler),
         "PFX" => Some(ops_types::pfx_handler),
+        "SINK" => Some(ops_sink::sink_handler),
+        "SINKE" => Some(ops_sink::sinke_handler),
         _ => None
     }
 }
